@@ -135,7 +135,7 @@ func (s *scen) log(e rlEvent) {
 	s.evs = append(s.evs, e)
 	s.lastEv = time.Now()
 	switch e.Ev {
-	case "Deliver", "Fin", "Req", "End", "Fail", "Lost", "Down":
+	case "Deliver", "Fin", "Req", "End", "Fail", "Down":
 		if e.Ev != "Fail" || e.K != "hang" {
 			s.sevs = append(s.sevs, e)
 		}
@@ -152,6 +152,10 @@ func (s *scen) shapeTake(d, m int, item string) {
 		s.sevs = append(s.sevs, rlEvent{Ev: "Refuse", M: m, D: d})
 	case item == "L:hang":
 		s.sevs = append(s.sevs, rlEvent{Ev: "Fail", M: m, D: d, K: "hang"})
+	default: // L:close, or D met by a request on a live connection (stub HTTP endpoint only; the fake nsqd logs its own)
+		if s.sc.Tool == "nsq_to_http" {
+			s.sevs = append(s.sevs, rlEvent{Ev: "Lost", M: m, D: d})
+		}
 	}
 }
 
@@ -1033,7 +1037,24 @@ func relayRun(args []string) int {
 				}
 			}
 			sw.Put(map[string]interface{}{"ev": "Reset", "m": 0, "d": 0, "k": "", "sh": "", "n": r.Scenario.NMsgs, "sched": sched, "to": r.timeouts, "info": r.ID})
+			// an answer to a request of a delivery the relay has already answered itself (its own timeout fired
+			// before the destination got round to the request) is a "Ghost" for the shape spec
+			open := map[int]int{}
 			for _, e := range r.shape {
+				switch {
+				case e.Ev == "Deliver":
+					open[e.M]++
+				case e.Ev == "Fin" || e.Ev == "Req":
+					open[e.M]--
+				case e.M > 0 && open[e.M] <= 0 && (e.Ev == "Accept" || e.Ev == "Refuse" || e.Ev == "Lost" || (e.Ev == "Fail" && e.K == "hang")):
+					switch e.Ev {
+					case "Refuse":
+						e.Sh = "R"
+					case "Lost", "Fail":
+						e.Sh = "L"
+					}
+					e.Ev = "Ghost"
+				}
 				sw.Put(map[string]interface{}{"ev": e.Ev, "m": e.M, "d": e.D, "k": e.K, "sh": e.Sh})
 			}
 		}
